@@ -6,6 +6,13 @@ import z3
 from .values import SBool, SInt, Unsupported, concretize, wrap_bool
 
 
+# L3: datetime.timestamp() of a naive value = wall seconds minus the local zone's offset at that wall time;
+# fromtimestamp(u) = u plus the zone's offset at that instant.  The offsets are arbitrary (environment chosen):
+# a result that depends on them depends on the process time zone.
+tzoff = z3.Function("tzoff", z3.IntSort(), z3.IntSort())
+tzoff_back = z3.Function("tzoff_back", z3.IntSort(), z3.IntSort())
+
+
 class DateTimeV:
     pyclass = "datetime"
 
@@ -48,6 +55,14 @@ class DateTimeV:
             return
         if name == "tzinfo":
             yield st, self.tz
+            return
+        if name == "timestamp":
+            from .values import SFloat
+
+            def f(ex, st, args, kwargs, node):
+                s_ = _t(self.sec)
+                yield st, SFloat(z3.ToReal(s_ - tzoff(s_)) + z3.ToReal(_t(self.micro)) / 1000000)
+            yield st, Builtin("datetime.timestamp", f)
             return
         raise Unsupported(f"datetime.{name}")
 
